@@ -369,6 +369,18 @@ theorem stepWorld_okP {k : Key2} {p : Int} (hp0 : 0 ≤ p) {s : Sim} (hI : SInvP
       obtain ⟨a, b, c⟩ := hW.sug sg hsg
       exact ⟨Int.le_trans a hb2, Int.le_trans b hb2, c⟩
     · intro sh hh; exact ⟨sh, by rw [hfs]; exact hh, List.prefix_refl _, Nat.le_refl _, fun _ => rfl⟩
+  | jobGone k' =>
+    have e : (stepWorld s (.jobGone k')).1.trials = s.cur.trials := by
+      simp only [stepWorld]; split
+      · rfl
+      · split <;> rfl
+    refine envOp ?_ ?_ (sameTrials e)
+    · simp only [stepWorld]; split
+      · rfl
+      · split <;> rfl
+    · simp only [stepWorld]; split
+      · rfl
+      · split <;> rfl
   | noop => exact ⟨hI.1, Past.refl k _, TPast.refl _⟩
 
 theorem step_invP {k : Key2} {p : Int} (hp0 : 0 ≤ p) {s : Sim} (hI : SInvP k p s) (op : Op) (hop : ∀ n, op ≠ .editMax k n) :
